@@ -76,7 +76,18 @@ def run_C02(run):
 
 
 def run_C03(run):
-    return _run(run, [monitors.C03()])
+    from . import apisurf
+    cov, assumptions = _run(run, [monitors.C03()])
+    tot = apisurf.run_surface(run)
+    run.merge_counts({'api_' + k: v for k, v in tot.items()})
+    cov['transitions'] += tot['calls']
+    cov['traces_validated_against_impl'] += tot['calls']
+    cov['evaluations'] += tot['calls']
+    cov['rule'] += ' || API surface: the full product of small per-parameter domains (valid values and every documented kind of invalid one) for ' \
+                   f"{tot['callables']} public callables"
+    cov['samples'] = cov['samples'][:8] + [{'api_call': "Capture('a', 'a\\n')", 'expected': 'InvalidCapturingGroupNameException'},
+                                            {'api_call': "AtLeastAtMost('a', 2, 1)", 'expected': 'InvalidArgumentValueException'}]
+    return cov, assumptions + ['argument domains are written from the docstrings :param:/:raises: sections; Python-level arity errors are out of scope']
 
 
 def run_C05(run):
